@@ -81,7 +81,7 @@ def run(ctx, replay_ops=None):
     lcore.run(ctx, "C22", "c22", "AlgoVerif.Props.C22", monitor,
               rule=("cases as in C18 (all assets are created by transactions; default-frozen assets, totals 0 .. 2^64−1); profile c22 = 50% asset transfers (opt-in, transfers of 0 / 1 / whole / "
                     "whole+1 / 2^64−1 between holders and to non-holders, clawback by the clawback address or by others, close-out to creator / other holder / self / non-holder), 22% asset config "
-                    "(create with random manager/reserve/freeze/clawback incl. zero, reconfigure, destroy by manager or not, with holdings outstanding or not), 14% freeze; unknown and destroyed asset ids; "
+                    "(create with random manager/reserve/freeze/clawback incl. zero, reconfigure, destroy by manager or not, with holdings outstanding or not), 14% freeze; unknown and destroyed asset ids; a directed 'written earlier in this block, then written again by a group that FAILS' stream (18% of groups + forced after an asset created in the block): random orders of {asset reconfigure by the manager, transfer / freeze / clawback rewriting the creator's holding, payments and keyregs of accounts touched earlier} x {overspending or dead member at any position, wrong group hash, fee shortfall, none} x {asset created earlier in this block, holding touched earlier in this block, untouched} — parent/child record aliasing shows only there; "
                     "evaluations = groups tried; distinct = distinct non-empty group op lines"),
               replay_ops=replay_ops,
               extra_assumptions=["asset names, unit names, URLs and metadata hashes are always empty; MaxAssetsPerAccount = 0 (no limit) in the protocols exercised, the limit branch is modelled but only reached by the model",
